@@ -32,6 +32,10 @@ type c07Case struct {
 	StrName string `json:"str_name"`
 	NoRoot  bool   `json:"norootdir"`
 	Resume  bool   `json:"resume"`
+	// Pad > 0: the manifest carries Pad harmless file entries in front of the
+	// hostile ones (manifest size and position of the entry as a dimension:
+	// a receiver that checks large manifests in blocks / in parallel)
+	Pad int `json:"pad,omitempty"`
 }
 
 // jailSnapshot records (kind, size, mtime, sha256) of everything under jail
@@ -163,8 +167,13 @@ func hostileMultistream(ctx context.Context, conn transfer.Conn, c c07Case, jail
 	case "filebegin.rel_path":
 		beginPath = c.Str // manifest stays clean: FileBegin alone carries the string
 	}
-	m.Items = []manifest.FileItem{dir, it, empty}
-	m.FileCount = 2
+	m.Items = nil
+	for i := 0; i < c.Pad; i++ {
+		m.Items = append(m.Items, manifest.FileItem{RelPath: fmt.Sprintf("ok/pad/f%05d.bin", i), Size: 1, ModTime: 1, ID: fmt.Sprintf("%016x", 0xabc0000000000000+uint64(i))})
+	}
+	m.Items = append(m.Items, dir, it, empty)
+	m.FileCount = 2 + c.Pad
+	m.TotalBytes += int64(c.Pad)
 	key := transfer.VerifCoreFileKey(it)
 	emptyKey := transfer.VerifCoreFileKey(empty)
 
@@ -324,6 +333,15 @@ func runC07(e *Env) {
 		for _, f := range []string{"manifest.root", "item.rel_path(file)", "item.rel_path(dir)"} {
 			add(c07Case{Target: "legacy-manifest", Field: f, Str: s[1], StrName: s[0]})
 		}
+		// the same entries at the very end of a manifest of several thousand
+		// entries (sizes around 4096 with every remainder modulo 4)
+		if strings.HasPrefix(s[0], "dotdot-") || s[0] == "absolute" || s[0] == "sibling-victim-dir" || s[0] == "mid-dotdot" || (e.Thorough() && !strings.HasPrefix(s[0], "mix-")) {
+			for k, f := range []string{"item.rel_path(file)", "item.rel_path(dir)", "item.id", "item.id(empty-file)"} {
+				for _, pad := range []int{4093, 4094, 4095, 4096, 8190} {
+					add(c07Case{Target: "multistream", Field: f, Str: s[1], StrName: s[0], NoRoot: (k+pad)%2 == 0, Resume: true, Pad: pad})
+				}
+			}
+		}
 		add(c07Case{Target: "legacy-file", Field: "filename", Str: s[1], StrName: s[0]})
 		add(c07Case{Target: "app-clear", Field: "root", Str: s[1], StrName: s[0]})
 		add(c07Case{Target: "app-has", Field: "root", Str: s[1], StrName: s[0]})
@@ -392,7 +410,10 @@ func runC07(e *Env) {
 		after := jailSnapshot(jail, outDir)
 		d := diffSnap(before, after)
 		e.R.Eval()
-		e.R.Distinct(fmt.Sprintf("%s/%s/%s/nr%v/res%v", c.Target, c.Field, c.StrName, c.NoRoot, c.Resume))
+		e.R.Distinct(fmt.Sprintf("%s/%s/%s/nr%v/res%v/pad%d", c.Target, c.Field, c.StrName, c.NoRoot, c.Resume, c.Pad))
+		if c.Pad > 0 {
+			e.R.Count("large_manifest_cases")
+		}
 		mu.Lock()
 		byField[c.Target+":"+c.Field]++
 		mu.Unlock()
@@ -408,6 +429,9 @@ func runC07(e *Env) {
 			if c.Target == "multistream" {
 				key += ":" + mode
 			}
+			if c.Pad > 0 {
+				key += ":at-the-end-of-a-large-manifest"
+			}
 			mu.Lock()
 			escapes[key]++
 			mu.Unlock()
@@ -418,6 +442,7 @@ func runC07(e *Env) {
 	})
 	e.R.SetExtra("cases_by_target_field", byField)
 	e.R.SetExtra("escapes_by_key", escapes)
+	e.R.Require(e.R.Counter("large_manifest_cases") >= e.Pick(60, 400), "too few cases with the hostile entry at the end of a large manifest")
 	e.R.Require(e.R.DistinctCount() >= e.Pick(1000, 20000), fmt.Sprintf("only %d distinct cases", e.R.DistinctCount()))
 	_ = io.EOF
 }
